@@ -60,6 +60,10 @@ class CollectionSummaryCache:
         """
         self._cache.update(summaries)
 
+    def clear(self) -> None:
+        """Remove all records from the cache."""
+        self._cache.clear()
+
     def discard(self, keys: Iterable[Any]) -> None:
         """Remove records from the cache, so that they are fetched again the
         next time they are needed.
